@@ -271,6 +271,31 @@ fn search(app: &TuiApp, txt: &str, what: &str, fails: &mut Vec<String>, stats: &
     }
 }
 
+/// The map marks the location of ONE hop (the selected one, else the target) with a box.  When that hop is hidden and no visible hop
+/// of the flow on display is at the same location, nothing in the colour of that box may be drawn: the box would show where the
+/// hidden hop is.  (A visible hop at the same location has the box drawn around its own pin, which discloses nothing new.)
+fn map_box_rule(app: &mut TuiApp, w: u16, h: u16, what: &str, fails: &mut Vec<String>) {
+    let Some(n) = app.tui_config.privacy_max_ttl else { return };
+    if !app.show_map || app.show_help || app.show_settings { return; }
+    let Ok((panel_ttl, panel_ids)) = std::panic::catch_unwind(std::panic::AssertUnwindSafe(|| {
+        let hop = app.selected_hop_or_target();
+        (hop.ttl(), hop.addrs().filter_map(id_of).collect::<Vec<u32>>())
+    })) else { return };
+    if panel_ttl == 0 || panel_ttl > n { return; }
+    let located = |id: &u32| id % 3 == 0;
+    let visible_groups: BTreeSet<u32> = app.tracer_data().hops_for_flow(app.selected_flow).iter().filter(|hp| hp.ttl() > n)
+        .flat_map(|hp| hp.addrs().filter_map(id_of).collect::<Vec<u32>>()).filter(located).map(geo_group).collect();
+    if panel_ids.iter().filter(|id| located(id)).any(|id| visible_groups.contains(&geo_group(*id))) { return; }
+    let marker = ratatui::style::Color::Indexed(201);
+    let saved = app.tui_config.theme.map_selected;
+    app.tui_config.theme.map_selected = marker;
+    let r = std::panic::catch_unwind(std::panic::AssertUnwindSafe(|| crate::tuikit::draw_counting(app, w, h, marker)));
+    app.tui_config.theme.map_selected = saved;
+    if let Ok((_, cells)) = r {
+        if cells > 0 { fails.push(format!("C18:leak:map_selection_box_drawn_for_hidden_hop_{panel_ttl}_({cells}_cells):{what}")); }
+    }
+}
+
 #[derive(Default, Clone)]
 pub struct Stats {
     pub screens_searched: usize,
@@ -384,6 +409,7 @@ fn hooks(variants_per_frame: usize, stats: std::sync::Arc<std::sync::Mutex<Stats
             let mut st = Stats::default();
             let app = &mut sut.app;
             search(app, txt, &format!("op{i}:as_drawn"), &mut fails, &mut st);
+            map_box_rule(app, 120, 40, &format!("op{i}:as_drawn"), &mut fails);
             let saved = save(app);
             // ---- the slice of the view matrix
             for _ in 0..variants_per_frame {
@@ -393,6 +419,7 @@ fn hooks(variants_per_frame: usize, stats: std::sync::Arc<std::sync::Mutex<Stats
                 let t = draw(app, w, h);
                 st.variant_draws += 1;
                 search(app, &t, &format!("op{i}:{what}"), &mut fails, &mut st);
+                map_box_rule(app, w, h, &format!("op{i}:{what}"), &mut fails);
                 restore(app, &saved);
             }
             // ---- the reference screen: table, IP mode, every row visible
@@ -574,6 +601,16 @@ fn structured_cases() -> Vec<Case> {
             if (ops.len() + extra) % 2 == 1 { ops.push(f(100, 30)); }
             v.push(Case { max_flows: vec![1], cols: None, privacy: Some(n), max_addrs: None, ops });
         }
+    }
+    // located hops at three different sites (ids 3, 6, 9), map view, every hop selected in turn, privacy 1..3
+    for n in [1u8, 2, 3] {
+        let mut ops = vec![f(120, 40), round_of_path(0, 1, 1, &path(&[3, 6, 9, 12]), 0), round_of_path(0, 2, 1, &path(&[3, 6, 9, 12]), 0), f(120, 40), k("toggle_map"), f(120, 40), f(120, 40)];
+        for _ in 0..4 {
+            ops.push(k("next_hop"));
+            ops.push(f(120, 40));
+        }
+        if ops.len() % 2 == 0 { ops.push(f(100, 30)); }
+        v.push(Case { max_flows: vec![1], cols: None, privacy: Some(n), max_addrs: None, ops });
     }
     v
 }
